@@ -105,6 +105,9 @@ def const_event(consts, cfg):
             "out": {"gen": fq12(c["gt_generator"]), "one": fq12(c["gt_zero"]), "g1": [fq(g1, 0), fq(g1, 1), g1[96]],
                     "g2": [fq2(g2, 0), fq2(g2, 1), g2[192]], "order": c["group_order"]}}
 
+def case_class(c):
+    return tuple(sorted((a, b) for a, b in c.items() if a not in ("seed", "id") and (isinstance(b, (str, bool)) or (isinstance(b, int) and abs(b) < 64))))
+
 def per_key(cases, n, pred=None):
     """up to n cases for every C-function key the cases can exercise (greedy over multi-key histories), spread over the generator's order"""
     cases = [c for c in cases if (pred is None or pred(c)) and ckeys(c)]
@@ -117,7 +120,17 @@ def per_key(cases, n, pred=None):
         need = n - count.get(k, 0)
         if need <= 0: continue
         import random
-        for i in random.Random(vlib.seed() * 131 + len(k)).sample(idx, min(need, len(idx))):
+        rnd = random.Random(vlib.seed() * 131 + len(k))
+        # stratified: one case from every class of cases (the generator's small scalar fields: case class, variant, flags, ...) before a second from any
+        groups = {}
+        for i in idx: groups.setdefault(case_class(cases[i]), []).append(i)
+        order = []
+        gl = [rnd.sample(g, len(g)) for _, g in sorted(groups.items())]
+        rnd.shuffle(gl)
+        while any(gl):
+            for g in gl:
+                if g: order.append(g.pop())
+        for i in order[:need]:
             if i not in chosen:
                 chosen.append(i)
                 for kk in ckeys(cases[i]): count[kk] = count.get(kk, 0) + 1
@@ -142,7 +155,7 @@ def run(tier):
     decls, mf, cf, sf, measured, consts = tables(run, sc)
     # ---- function events: the layers' generators, C-interface cases only ------------------------------------------------
     jobs = {"curve_p": ("Gen_Curve", {"WHAT": "points"}), "curve_s": ("Gen_Curve", {"WHAT": "scalars"}), "pair_single": ("Gen_Pairing", {"WHAT": "single"}),
-            "pair_sum": ("Gen_Pairing", {"WHAT": "sum"}), "pair_gt": ("Gen_Pairing", {"WHAT": "gt"}), "codec_enc": ("Gen_Codec", {"WHAT": "enc"}),
+            "pair_sum": ("Gen_Pairing", {"WHAT": "sum"}), "pair_gt": ("Gen_Pairing", {"WHAT": "gt"}), "pair_gtview": ("Gen_Pairing", {"WHAT": "gtview"}), "codec_enc": ("Gen_Codec", {"WHAT": "enc"}),
             "codec_samp": ("Gen_Codec", {"WHAT": "hash"}), "mar_obj": ("Gen_Marshal", {"WHAT": "objects"}), "mar_sweep": ("Gen_Marshal", {"WHAT": "sweep", "NMAX": "300"}),
             "lq": ("Gen_LqIbe", {}), "wk_deleg": ("Gen_WkdIbe", {"FAMILY": "deleg", "KEEP": 200}), "wk_sig": ("Gen_WkdIbe", {"FAMILY": "sig", "KEEP": 12}),
             "wk_adjust": ("Gen_WkdIbe", {"FAMILY": "adjust", "KEEP": 100})}
@@ -157,7 +170,8 @@ def run(tier):
     noal = lambda c: c.get("alias", 0) == 0
     sel = {
         CURVE: per_key(res["curve_p"], 6 if q else 120, noal) + per_key(res["curve_s"], 6 if q else 100, noal),
-        PAIR: per_key(res["pair_single"], 2 if q else 20) + per_key(res["pair_sum"], 3 if q else 40) + per_key(res["pair_gt"], 3 if q else 40, noal),
+        PAIR: per_key(res["pair_single"], 4 if q else 20) + per_key(res["pair_sum"], 3 if q else 40) + per_key(res["pair_gt"], 3 if q else 40, noal)
+              + per_key(res["pair_gtview"], 2 if q else 12),
         CODEC: per_key(res["codec_enc"], 12 if q else 400) + per_key(res["codec_samp"], 6 if q else 200),
         MAR: per_key(res["mar_obj"], 3 if q else 60) + per_key(res["mar_sweep"], 1 if q else 4),
         LQ: per_key(res["lq"], 3 if q else 30),
